@@ -28,7 +28,7 @@ theorem map_snoc (l : List Card) (c : Card) : l.map encCard ++ [encCard c] = (l 
 
 theorem cast_succ_rev (n : Nat) : (n : Int) + 1 = ((n + 1 : Nat) : Int) := by omega
 theorem play_card_call (f : Nat) (k : Id) (hk : PPClass k) (ex : List (Id × Val)) (c : Contract) (s : PState)
-    (card : Card) (hwf : WF s) :
+    (card : Card) (hwf : s.trick.length = 3 → WF s) :
     callF (mkRec P (f+50)) m_PlayingPhase_play_card [ppObj k c s ex, encCard card]
       = .ok (.none, ppObj k c (playCard s card) ex) := by
   rw [callF_def]
@@ -36,9 +36,10 @@ theorem play_card_call (f : Nat) (k : Id) (hk : PPClass k) (ex : List (Id × Val
   obtain ⟨trump, declarer, dummy, leader, active, trick, trickNum, history, used, takenNS, takenEW⟩ := s
   obtain ⟨hk1, hk2⟩ := hk
   simp only [WF] at hwf
-  simp only
+  simp only at hwf ⊢
   by_cases hlen : trick.length = 3
-  · have e4 : ((trick.length + 1 : Nat) : Int) = 4 := by omega
+  · have hwf := hwf hlen
+    have e4 : ((trick.length + 1 : Nat) : Int) = 4 := by omega
     have hp : playCard ⟨trump, declarer, dummy, leader, active, trick, trickNum, history, used, takenNS, takenEW⟩ card
         = addTaken ⟨trump, declarer, dummy, leader.rot (highestIdx trump (trick ++ [card])).toNat,
             leader.rot (highestIdx trump (trick ++ [card])).toNat, [], trickNum + 1,
@@ -77,5 +78,23 @@ theorem play_card_call (f : Nat) (k : Id) (hk : PPClass k) (ex : List (Id × Val
     · ppsimp [encCards, contains_encCard, mem_reverse_dec, hm, len_tuple, List.length_map, List.length_append,
         beq_int, Nat.zero_add, beq_iff_eq, e4, getAttr_next, setAdd, List.map_append, List.map_cons, List.map_nil,
         List.reverse_cons]
+
+/-- the fourth card of a trick whose number is not the next one of the history: `PlayingHistory.record` raises -/
+theorem play_card_call_bad (f : Nat) (k : Id) (hk : PPClass k) (ex : List (Id × Val)) (c : Contract) (s : PState)
+    (card : Card) (hlen : s.trick.length = 3) (hwf : ¬ WF s) :
+    callF (mkRec P (f+50)) m_PlayingPhase_play_card [ppObj k c s ex, encCard card] = .error (.exc K.ValueError) := by
+  rw [callF_def]
+  simp only [m_PlayingPhase_play_card, bindParams, Option.map, ppObj, baseFields]
+  obtain ⟨trump, declarer, dummy, leader, active, trick, trickNum, history, used, takenNS, takenEW⟩ := s
+  obtain ⟨hk1, hk2⟩ := hk
+  simp only at hlen
+  have e4 : ((trick.length + 1 : Nat) : Int) = 4 := by omega
+  ppsimp [encCards, add_used, map_snoc, len_tuple, List.length_map, List.length_append,
+      beq_int, Nat.zero_add, beq_iff_eq, e4, hk1, hk2]
+  have h1 := record_self_call_bad (f+27) k ex c
+    ⟨trump, declarer, dummy, leader, active, trick ++ [card], trickNum, history, setAdd card used, takenNS, takenEW⟩ hwf
+  simp only [ppObj, baseFields, encCards, List.cons_append, List.nil_append] at h1
+  rw [h1]
+  ppsimp []
 
 end Bridge.Translated
